@@ -783,3 +783,49 @@ def _c16_guards(tier="quick", seed=0):
 
 _c16_before_guards = EXTRA_CHECKS["C16"]
 EXTRA_CHECKS["C16"] = (lambda tier="quick", seed=0: _c16_before_guards(tier, seed) + _c16_guards(tier, seed))
+
+
+# ---- C08 "repeating a run in a fresh process gives bit-identical outputs": nothing in the simulation modules builds ordered structure (lists of
+# members, links, accumulated sums) by iterating over a set, whose order depends on the hash seed of the process
+def _replay_hash_seed():
+    """replay END TO END: the tb demo is run in two fresh interpreter processes with PYTHONHASHSEED 1 and 2 and a digest of every output array is compared"""
+    import hashlib
+    import os
+    import subprocess
+    import sys
+
+    at, _ = _udt()
+    root = os.path.dirname(os.path.dirname(at.__file__))
+    code = ("import warnings, logging, hashlib, numpy as np\nwarnings.filterwarnings('ignore')\nimport atomica as at\nat.logger.setLevel(logging.ERROR)\n"
+            "P = at.demo('tb', do_run=False)\nres = P.run_sim(P.parsets[0], store_results=False)\nh = hashlib.sha256()\n"
+            "for pop in res.model.pops:\n    for v in pop.comps + pop.characs + pop.pars + pop.links:\n        if v.vals is not None:\n            h.update(np.ascontiguousarray(np.asarray(v.vals, dtype=float)).tobytes())\nprint('DIGEST', h.hexdigest())\n")
+    digests = {}
+    for seed in ("1", "2"):
+        env = dict(os.environ, PYTHONHASHSEED=seed, PYTHONPATH=root + os.pathsep + os.environ.get("PYTHONPATH", ""))
+        r = subprocess.run([sys.executable, "-c", code], capture_output=True, text=True, env=env, timeout=600)
+        line = [l for l in r.stdout.split("\n") if l.startswith("DIGEST")]
+        digests[seed] = line[0].split()[1] if line else "run failed: " + r.stderr[-200:]
+    same = len(set(digests.values())) == 1
+    return dict(verdict="holds" if same else "violates", detail="outputs of the tb demo are bit-identical for hash seeds 1 and 2" if same else "the tb demo gives different output bytes in processes with PYTHONHASHSEED=1 and 2: %r" % digests,
+                prestate=dict(project="tb", hash_seeds=[1, 2]))
+
+
+def _c08_set_order(tier="quick", seed=0):
+    import ast
+
+    from pyvc import source
+
+    out, scanned = [], 0
+    for mod in ("model", "parameters", "programs", "project", "utils", "function_parser", "scenarios"):
+        m = source.load(mod)
+        names = list(m.functions.keys()) + ["%s.%s" % (c, f.name) for c, (node, _) in m.classes.items() for f in node.body if isinstance(f, ast.FunctionDef)]
+        for n in sorted(names):
+            scanned += 1
+            out += flow.no_order_dependent_iteration_over_sets("%s:%s" % (mod, n))
+    out.append(dict(function="model,parameters,programs,project,utils,function_parser,scenarios:all-functions", name="functions-scanned-for-set-order-dependence:%d" % scanned, kind="structural",
+                    status="proved" if scanned > 100 else "refuted", seconds=0.0, backend="ast-analysis", note="loops over sets whose bodies append / insert / accumulate / register"))
+    return _attach(out, "set-iteration-is-order-independent", _replay_hash_seed)
+
+
+_c08_before_sets = EXTRA_CHECKS["C08"]
+EXTRA_CHECKS["C08"] = (lambda tier="quick", seed=0: _c08_before_sets(tier, seed) + _c08_set_order(tier, seed))
